@@ -25,6 +25,7 @@ import (
 	"fmt"
 	"math/rand"
 	"os"
+	"strings"
 	"sync"
 	"testing"
 	"time"
@@ -79,26 +80,35 @@ type c15Msg struct {
 }
 
 type c15Run struct {
-	t     *testing.T
-	reg   *invpkg.InvoiceRegistry
-	clk   *clock.TestClock
-	cfg   *invpkg.RegistryConfig
-	sig   chan time.Duration
-	tick  int
-	base  time.Time
-	sent  time.Time // release time of the sentinel timer
-	kinds [2]string
-	pre   [2]lntypes.Preimage
-	hash  [2]lntypes.Hash
-	addr  [2][32]byte
-	junk  [32]byte
-	sets  map[string]*c15AmpSet
-	hodl  [3]chan interface{} // 0: sequential driver, 1/2: links
-	memo  map[int]*c15Ev      // parameters of every circuit key used (replays)
+	t      *testing.T
+	reg    *invpkg.InvoiceRegistry
+	clk    *clock.TestClock
+	cfg    *invpkg.RegistryConfig
+	sig    chan time.Duration
+	tick   int
+	base   time.Time
+	sent   time.Time // release time of the sentinel timer
+	kinds  [2]string
+	pre    [2]lntypes.Preimage
+	hash   [2]lntypes.Hash
+	addr   [2][32]byte
+	junk   [32]byte
+	sets   map[string]*c15AmpSet
+	hodl   [3]chan interface{} // 1/2: the hodl channels of the two links (0 unused)
+	memo   map[int]*c15Ev      // parameters of every circuit key used (replays)
 	hashOf map[int]lntypes.Hash
-	rng   *rand.Rand
+	rng    *rand.Rand
 	ndummy int
-	slow  bool
+	slow   bool
+}
+
+// c15Link is the link (and thereby the hodl channel) a circuit key belongs to:
+// circuits 1,2 arrive on link 1, circuits 3,4 on link 2.
+func c15Link(c int) int {
+	if c <= 2 {
+		return 1
+	}
+	return 2
 }
 
 func c15Rand32(rng *rand.Rand) (b [32]byte) {
@@ -294,7 +304,7 @@ func (r *c15Run) addrOf(ad int) [32]byte {
 
 // call performs NotifyExitHopHtlc for the HTLC described by ev (the memoised
 // parameters of circuit ev.C for a replay) at model height ht.
-func (r *c15Run) call(p *c15Ev, ht int, link int) (invpkg.HtlcResolution, lntypes.Hash, error) {
+func (r *c15Run) call(p *c15Ev, ht int) (invpkg.HtlcResolution, lntypes.Hash, error) {
 	var (
 		hash    lntypes.Hash
 		payload = &mockPayload{}
@@ -329,7 +339,7 @@ func (r *c15Run) call(p *c15Ev, ht int, link int) (invpkg.HtlcResolution, lntype
 	}
 	res, err := r.reg.NotifyExitHopHtlc(hash, lnwire.MilliSatoshi(p.Amt)*c15Unit,
 		uint32(c15BaseHeight+p.Exp), int32(c15BaseHeight+ht), getCircuitKey(uint64(p.C)),
-		r.hodl[link], nil, payload)
+		r.hodl[c15Link(p.C)], nil, payload)
 	return res, hash, err
 }
 
@@ -481,7 +491,9 @@ func (r *c15Run) barrier() {
 		if at.Equal(r.sent) {
 			return true
 		}
-		for j := 0; j <= r.tick; j++ {
+		// (no HTLC can have been accepted at the current clock value yet: a
+		// remaining duration of exactly one hold period is always stale)
+		for j := 0; j < r.tick; j++ {
 			if at.Equal(r.c15Time(j).Add(c15Hold)) {
 				return true
 			}
@@ -523,7 +535,7 @@ func (r *c15Run) step(out *verifkit.Writer, ev *c15Ev) {
 	case "Notify":
 		cp := *ev
 		r.memo[ev.C] = &cp
-		res, hash, err := r.call(ev, ev.Ht, 0)
+		res, hash, err := r.call(ev, ev.Ht)
 		r.hashOf[ev.C] = hash
 		c15Describe(rec, res, err, hash)
 	case "Replay":
@@ -535,7 +547,7 @@ func (r *c15Run) step(out *verifkit.Writer, ev *c15Ev) {
 		for _, f := range []string{"pl", "h", "ad", "amt", "tot", "exp", "set", "good"} {
 			rec[f] = r.base15(p, 0)[f]
 		}
-		res, hash, err := r.call(p, ev.Ht, 0)
+		res, hash, err := r.call(p, ev.Ht)
 		c15Describe(rec, res, err, hash)
 	case "Settle":
 		err := r.reg.SettleHodlInvoice(ctxb, r.pre[ev.K-1])
@@ -564,17 +576,24 @@ func (r *c15Run) step(out *verifkit.Writer, ev *c15Ev) {
 	out.Emit(rec)
 }
 
-func c15Store() string { return verifkit.Env("VERIF_STORE", "kv") }
+// c15Stores: VERIF_STORES = "kv", "sql" or "kv,sql"; each store gets its own trace file.
+func c15Stores() []string { return strings.Split(verifkit.Env("VERIF_STORES", "kv"), ",") }
 
 // TestVerifC15Replay replays TLC-generated behaviours of spec/InvoiceRegistry.
 func TestVerifC15Replay(t *testing.T) {
 	dir := os.Getenv("VERIF_SCHED")
-	out := verifkit.MustWriter(verifkit.Env("VERIF_OUT", ".") + "/trace.ndjson")
-	defer out.Close()
 	files := verifkit.ListFiles(dir, "b_", ".ndjson")
 	if len(files) == 0 {
 		t.Fatalf("no schedules in %q", dir)
 	}
+	for _, store := range c15Stores() {
+		c15Replay(t, store, files)
+	}
+}
+
+func c15Replay(t *testing.T, store string, files []string) {
+	out := verifkit.MustWriter(verifkit.Env("VERIF_OUT", ".") + "/trace_" + store + ".ndjson")
+	defer out.Close()
 	for fi, f := range files {
 		evs, err := verifkit.ReadNDJSONInto[c15Ev](f)
 		if err != nil {
@@ -583,8 +602,8 @@ func TestVerifC15Replay(t *testing.T) {
 		if len(evs) == 0 {
 			continue
 		}
-		t.Run(fmt.Sprintf("b%d", fi), func(t *testing.T) {
-			r := c15NewRun(t, c15Store(), evs[0].K1, evs[0].K2, verifkit.Seed()*100003+int64(fi))
+		t.Run(fmt.Sprintf("%s-b%d", store, fi), func(t *testing.T) {
+			r := c15NewRun(t, store, evs[0].K1, evs[0].K2, verifkit.Seed()*100003+int64(fi))
 			reset := r.base15(&c15Ev{A: "Reset", Pl: "none", Set: "none", Good: 1}, 0)
 			c15Blank(reset)
 			reset["file"] = f
@@ -671,19 +690,27 @@ func (r *c15Run) randomHtlc(c int, ht int) *c15Ev {
 
 // TestVerifC15Free: seeded random histories in which two links notify the
 // registry concurrently.  A block is recorded as
-//   Par(n1,n2), n1 records of link 1, n2 records of link 2, Join(snapshot)
+//
+//	Par(n1,n2), n1 records of link 1, n2 records of link 2, Join(snapshot)
+//
 // and the trace spec looks for an interleaving that explains every answer.
 func TestVerifC15Free(t *testing.T) {
-	out := verifkit.MustWriter(verifkit.Env("VERIF_OUT", ".") + "/trace.ndjson")
+	for _, store := range c15Stores() {
+		c15Free(t, store)
+	}
+}
+
+func c15Free(t *testing.T, store string) {
+	out := verifkit.MustWriter(verifkit.Env("VERIF_OUT", ".") + "/free_" + store + ".ndjson")
 	defer out.Close()
 	runs := verifkit.EnvInt("VERIF_RUNS", 40)
 	for n := 0; n < runs; n++ {
-		t.Run(fmt.Sprintf("f%d", n), func(t *testing.T) {
+		t.Run(fmt.Sprintf("%s-f%d", store, n), func(t *testing.T) {
 			seed := verifkit.Seed()*7919 + int64(n)
 			rng := rand.New(rand.NewSource(seed))
 			k1 := c15Kinds[rng.Intn(len(c15Kinds))]
 			k2 := c15Kinds[rng.Intn(len(c15Kinds))]
-			r := c15NewRun(t, c15Store(), k1, k2, seed)
+			r := c15NewRun(t, store, k1, k2, seed)
 			reset := r.base15(&c15Ev{A: "Reset", Pl: "none", Set: "none", Good: 1}, 0)
 			c15Blank(reset)
 			reset["file"] = fmt.Sprintf("free-%d-%d", verifkit.Seed(), n)
@@ -732,7 +759,7 @@ func TestVerifC15Free(t *testing.T) {
 								rec[f] = r.base15(p, 0)[f]
 							}
 							c15Blank(rec)
-							res, hash, err := r.call(p, ht, link)
+							res, hash, err := r.call(p, ht)
 							c15Describe(rec, res, err, hash)
 							recs[link] = append(recs[link], rec)
 						}
